@@ -2,12 +2,15 @@
 # usage: scripts/trymutant.sh <patch.diff> <ID> [<ID>...] : apply the patch to /repo, run the quick checks, undo.
 P=$1; shift
 git -C /repo diff --quiet || { echo "/repo is dirty"; exit 2; }
-git -C /repo apply "$P" 2>/dev/null || git -C /repo apply -3 "$P" || { echo "patch does not apply"; git -C /repo checkout -- .; exit 2; }
-git -C /repo reset -q
-trap 'git -C /repo checkout -- . ' EXIT INT TERM
+restore() { git -C /repo checkout HEAD -- . ; git -C /repo reset -q; }
+if ! git -C /repo apply "$P" 2>/dev/null; then
+  if ! git -C /repo apply -3 "$P" >/dev/null 2>&1; then echo "patch does not apply"; restore; exit 2; fi
+  git -C /repo reset -q
+fi
+trap restore EXIT INT TERM
 for id in "$@"; do
   /verif/bin/vcheck $id --tier quick > /var/tmp/trymut.$id.log 2>&1
   rc=$?
-  echo "== $id exit=$rc  $(grep -c '^VIOLATION' /var/tmp/trymut.$id.log) VIOLATION lines; $(grep '^VIOLATION' /var/tmp/trymut.$id.log | head -2 | cut -c1-120)"
+  echo "== $id exit=$rc  $(grep -c '^VIOLATION' /var/tmp/trymut.$id.log) VIOLATION lines; $(grep '^VIOLATION' /var/tmp/trymut.$id.log | head -1 | cut -c1-120)"
   grep "^vcheck:" /var/tmp/trymut.$id.log | head -3 | cut -c1-300
 done
